@@ -709,8 +709,35 @@ class Model(object):
         s = self.s
         if v < 6:
             return Verdict({404})
+        qd = dict(q)
+        if len(qd) != len(q) or set(qd) - {'name', 'associated'}:
+            return Verdict({400}) if set(qd) - {'name', 'associated'} \
+                else None
+        want = set(s.traits)
+        if 'name' in qd:
+            val = qd['name']
+            # (an empty list / empty prefix is not excluded by the api-ref:
+            # it selects nothing / everything)
+            if val.startswith('in:'):
+                want &= set(val[3:].split(','))
+            elif val.startswith('startswith:'):
+                want = {t for t in want if t.startswith(val[11:])}
+            else:
+                return Verdict({400})
+        if 'associated' in qd:
+            a = qd['associated'].lower()
+            if a not in ('true', 'false'):
+                return Verdict({400})
+            used = {t for (_, t) in s.rp_traits}
+            want = (want & used) if a == 'true' else (want - used)
         if q:
-            return None
+            def body_f(j, d):
+                got = set(j.get('traits', []))
+                if got != want:
+                    return ['filtered traits differ: %s' % sorted(
+                        got ^ want)[:5]]
+                return []
+            return Verdict({200}, None, body_f)
 
         def body(j, d):
             if set(j.get('traits', [])) != s.traits:
